@@ -115,6 +115,7 @@ def run_check(pid, cfg, tier, seed, work, t0):
     flag_hist = {}
     per_engine = {}
     if engines_ok and ok:
+        run_dirs = []
         for r in cfg.get("runs", []):
             engine = r["engine"]
             n = r[tier] if tier in r else r["quick"]
@@ -132,8 +133,15 @@ def run_check(pid, cfg, tier, seed, work, t0):
                     corr_fail.append((engine, None, os.path.basename(cf), ln, m, text.split("\n")))
                 for e in res.errors:
                     breaks.append(("engine-error", e))
-            res, files = C.gen_and_drive(engine, n, seed, tier, work, extra=r.get("extra"))
-            per_engine[engine] = dict(traces=res.traces, ops=res.ops)
+            # one directory per run: two runs of one engine (C03 has three crash runs) must not overwrite each other's trace files,
+            # from which the replays are cut
+            rundir = os.path.join(work, "run%d" % len(run_dirs))
+            run_dirs.append(rundir)
+            os.makedirs(rundir, exist_ok=True)
+            res, files = C.gen_and_drive(engine, n, seed, tier, rundir, extra=r.get("extra"))
+            ex = r.get("extra") or []
+            pe_key = engine + (":" + ex[ex.index("-profile") + 1] if "-profile" in ex else "")
+            per_engine[pe_key] = dict(traces=res.traces, ops=res.ops)
             evals += res.traces
             for e in res.errors:
                 breaks.append(("engine-error", "%s: %s" % (engine, e)))
